@@ -238,7 +238,7 @@ impl Subject {
         // The empty graph can also be made without the builder (`FnGraph::new()`): alternate.
         thread_local! { static FLIP: std::cell::Cell<bool> = const { std::cell::Cell::new(false) }; }
         let direct = gs.n == 0 && FLIP.with(|f| { f.set(!f.get()); f.get() });
-        let g = catch_unwind(AssertUnwindSafe(|| if direct { FnGraph::new() } else { tfn::build(&gs) })).map_err(panic_msg)?;
+        let g = tfn::guarded(gs.n, || catch_unwind(AssertUnwindSafe(|| if direct { FnGraph::new() } else { tfn::build(&gs) }))).map_err(panic_msg)?;
         let built = tfn::built_of(&g);
         Ok(Subject { gs, ug, g, built })
     }
